@@ -308,6 +308,11 @@ void ep3_mul_sim_joint(ep3_t r, const ep3_t p, const bn_t k, const ep3_t q,
 	int i, u_i, offset;
 	int8_t jsf[4 * (RLC_FP_BITS + 1)];
 	size_t l;
+	bn_t n, _k, _m;
+
+	bn_null(n);
+	bn_null(_k);
+	bn_null(_m);
 
 	if (bn_is_zero(k) || ep3_is_infty(p)) {
 		ep3_mul(r, q, m);
@@ -319,6 +324,15 @@ void ep3_mul_sim_joint(ep3_t r, const ep3_t p, const bn_t k, const ep3_t q,
 	}
 
 	RLC_TRY {
+		bn_new(n);
+		bn_new(_k);
+		bn_new(_m);
+
+		/* The recoding buffer only covers twice the field size. */
+		ep3_curve_get_ord(n);
+		bn_mod(_k, k, n);
+		bn_mod(_m, m, n);
+
 		for (i = 0; i < 5; i++) {
 			ep3_null(t[i]);
 			ep3_new(t[i]);
@@ -326,11 +340,11 @@ void ep3_mul_sim_joint(ep3_t r, const ep3_t p, const bn_t k, const ep3_t q,
 
 		ep3_set_infty(t[0]);
 		ep3_copy(t[1], q);
-		if (bn_sign(m) == RLC_NEG) {
+		if (bn_sign(_m) == RLC_NEG) {
 			ep3_neg(t[1], t[1]);
 		}
 		ep3_copy(t[2], p);
-		if (bn_sign(k) == RLC_NEG) {
+		if (bn_sign(_k) == RLC_NEG) {
 			ep3_neg(t[2], t[2]);
 		}
 		ep3_add(t[3], t[2], t[1]);
@@ -340,11 +354,11 @@ void ep3_mul_sim_joint(ep3_t r, const ep3_t p, const bn_t k, const ep3_t q,
 #endif
 
 		l = 4 * (RLC_FP_BITS + 1);
-		bn_rec_jsf(jsf, &l, k, m);
+		bn_rec_jsf(jsf, &l, _k, _m);
 
 		ep3_set_infty(r);
 
-		offset = RLC_MAX(bn_bits(k), bn_bits(m)) + 1;
+		offset = RLC_MAX(bn_bits(_k), bn_bits(_m)) + 1;
 		for (i = l - 1; i >= 0; i--) {
 			ep3_dbl(r, r);
 			if (jsf[i] != 0 && jsf[i] == -jsf[i + offset]) {
@@ -369,6 +383,9 @@ void ep3_mul_sim_joint(ep3_t r, const ep3_t p, const bn_t k, const ep3_t q,
 		RLC_THROW(ERR_CAUGHT);
 	}
 	RLC_FINALLY {
+		bn_free(n);
+		bn_free(_k);
+		bn_free(_m);
 		for (i = 0; i < 5; i++) {
 			ep3_free(t[i]);
 		}
